@@ -79,7 +79,7 @@ def gen_history(rng, tier):
                 ops.append(['fa', rng.randrange(1 << 16)]); live -= 1
     if rng.random() < 0.5:  # drain completely at the end
         for _ in range(live): ops.append([rng.choice(['fo', 'fa']), rng.randrange(1 << 16)])
-    return {'mode': 'heap', 'shape': shape, 'ops': ops, 'size_dtype': rng.choice(['int', 'int', 'int64', 'uint32', 'uint16'])}
+    return {'mode': 'heap', 'shape': shape, 'ops': ops, 'size_dtype': rng.choice(['int', 'int', 'int64', 'uint32', 'uint16', 'uint8', 'int8'])}
 
 
 def check_tables(h, ref, res, step):
